@@ -49,6 +49,10 @@ func runControls(dir string) error {
 		}
 		expect("errflow", n, flagged)
 	}
+	// whole-slice comparisons
+	for _, n := range []string{"goodVertexEqualXY", "badVertexEqualWhole"} {
+		expect("wholeslice", n, len(wholeSliceCompares(fns[n])) > 0)
+	}
 	// LASTELEM / CHAIN (SSA formulations)
 	for _, n := range []string{"goodLastGuarded", "goodLastLocalLen", "goodLastEarlyContinue", "badLastUnguarded", "badLastWrongSliceGuarded"} {
 		flagged := false
